@@ -77,7 +77,31 @@ Theorem C30_cells :
      get_style st' (get_cell_style_index l' r' c') = get_style st (get_cell_style_index l r' c')).
 Proof. exact (cell_assignment font fill border align font_eqb fill_eqb border_eqb align_eqb font_eqb_eq fill_eqb_eq border_eqb_eq align_eqb_eq). Qed.
 
+(* ROW CELLS: a non-default style assigned to a row is read by the row getter and by every cell of
+   the row that has no style of its own — on ANY layer, i.e. whatever record the row had before
+   (none; one created by set_row_height / set_row_hidden; one carrying the default style; one
+   whose style was deleted) *)
+Theorem C30_row_cells :
+  forall (st : styles font fill border align) s st' i down l r l',
+  wf_styles st -> intern st s = Ok (st', i) -> i <> 0 -> layer_set_row_style down l r i = Ok l' ->
+  (exists k, Rows.get_row_style (l_rows l') r = Some k /\ get_style st' k = Ok s) /\
+  forall c, get_cell_style_or_none l' r c = None -> get_style st' (get_cell_style_index l' r c) = Ok s.
+Proof. exact (row_assignment font fill border align font_eqb fill_eqb border_eqb align_eqb font_eqb_eq fill_eqb_eq border_eqb_eq align_eqb_eq). Qed.
+
+(* COLUMN CELLS: the same for columns, on any layer and any descriptor layout *)
+Theorem C30_column_cells :
+  forall (st : styles font fill border align) s st' i down up l c l',
+  (forall w, up (down w) = w) ->
+  wf_styles st -> intern st s = Ok (st', i) -> layer_set_column_style down up l c i = Ok l' ->
+  (exists k, style_at (l_cols l') c = Some k /\ get_style st' k = Ok s) /\
+  forall r, get_cell_style_or_none l' r c = None ->
+    (match find_row r (l_rows l') with Some x => r_custom_format x = false | None => True end) ->
+    get_style st' (get_cell_style_index l' r c) = Ok s.
+Proof. exact (column_assignment font fill border align font_eqb fill_eqb border_eqb align_eqb font_eqb_eq fill_eqb_eq border_eqb_eq align_eqb_eq). Qed.
+
 End C30.
+Print Assumptions C30_row_cells.
+Print Assumptions C30_column_cells.
 Print Assumptions C30_cells.
 Print Assumptions C30_readback.
 Print Assumptions C30_stable.
@@ -115,6 +139,17 @@ Theorem C30_columns :
     get_cell_style_index l' r c = i.
 Proof. exact set_column_style_layer. Qed.
 Print Assumptions C30_columns.
+
+(* ORDER: height / width / hidden operations on any row or column, on any layer, change the style
+   no cell reads *)
+Theorem C30_size_ops_keep_cell_styles :
+  forall down up, (forall w, up (down w) = w) ->
+  forall l o r c,
+  (match o with LRowHeight _ _ | LRowHidden _ _ | LColWidth _ _ | LColHidden _ _ => True | _ => False end) ->
+  get_cell_style_index (step_lop down up l o) r c = get_cell_style_index l r c /\
+  get_cell_style_or_none (step_lop down up l o) r c = get_cell_style_or_none l r c.
+Proof. exact size_ops_keep_cell_styles. Qed.
+Print Assumptions C30_size_ops_keep_cell_styles.
 
 (* the pools of a new workbook (Styles::default) are well formed *)
 Theorem C30_default_pools_wf :
